@@ -280,7 +280,7 @@ def Ech.elim (e : Ech) : Nat → Nat → List Nat → Option (List Nat)
         | none => none
         | some vi =>
           if vi = 0 then e.elim f (i + 1) vp
-          else if i + 8 < e.basis.length then
+          else if i + 8 < e.basis.length ∧ e.p / 2 ^ 62 = 0 then      -- `self.p >> 62 == 0`
             let idxs := (e.indices.drop i).take 8
             if idxs.length ≠ 8 then none
             else
@@ -569,7 +569,9 @@ def CrtDet.loop (isprime : Nat → Option Bool) (inv : Inv) (rows : List (List I
               | some (mp', true) =>
                 match mp'.add inv nth with
                 | none => none
-                | some (mp'', _) =>
+                | some (mp'', false) =>                   -- `if !mp.add(nth_row) { modp.push(0); continue }`
+                  CrtDet.loop isprime inv rows nth bits f p' (echs.set k mp'') (modp ++ [0]) (primes ++ [p'])
+                | some (mp'', true) =>
                   match mp''.det with
                   | none => none
                   | some d =>
